@@ -398,6 +398,8 @@ package decoder
 //@   requires b != nil && len(buf) >= 1
 //@   measure 2 * len(buf)
 //@   ensures err == nil ==> 0 <= offset && offset <= 2 * len(buf)
+// an index selector is a decimal number of at most 64 bits (what strconv is asked to parse)
+//@   callassert ParseInt: arg1 == 10 && arg2 == 64
 //@   assigns PathBuilder.root, PathBuilder.node, PathBuilder.singleQuotePathSelector, PathBuilder.doubleQuotePathSelector
 //@   loop 1: invariant 0 <= cursor && cursor <= len(buf)
 //@   loop 1: decreases len(buf) - cursor
